@@ -153,6 +153,25 @@ def retry_consistency(ctx, prog, fit_fns, rule_id="R2"):
         ctx.rules[rule_id].floor = 0
 
 
+def training_triple_complete(ctx, prog, rule_id="R7"):
+    """The surrogate's training data is a triple (X, y, s2) of equal length; gpyreg's update()/fit() combine them
+    element-wise.  A function that re-binds X or y of a GP object must re-bind s2 of the same object as well (under a
+    'noise vector present' guard at most), otherwise the next posterior update fails with a shape error in the noisy modes."""
+    ctx.rule(rule_id, "a function that re-binds a surrogate's X or y also re-binds the s2 of the same object", floor=2)
+    n = 0
+    for fn in prog.functions():
+        recv = {}
+        for t, v, st, k in iter_stores(fn.node):
+            if isinstance(t, ast.Attribute) and t.attr in ("X", "y", "s2") and isinstance(t.value, ast.Name) and is_gp_expr(prog, fn, t.value):
+                recv.setdefault(t.value.id, {}).setdefault(t.attr, st)
+        for r, d in sorted(recv.items()):
+            if "X" in d or "y" in d:
+                n += 1
+                ctx.check("s2" in d, fn, d.get("X") or d.get("y"), f"{r}.X / {r}.y and {r}.s2 re-bound in {fn.short}", f"{fn.short}() re-binds {r}.{'X' if 'X' in d else 'y'} but never {r}.s2: with a noise vector present the surrogate's training arrays then have different lengths and the caller's posterior update raises instead of completing", construct=f"{r}.X/y re-bound without {r}.s2")
+    if n == 0:
+        ctx.rules[rule_id].floor = 0
+
+
 def retry_mask_freshness(ctx, prog, fit_fns, rule_id="R6"):
     """Inside a retry loop that thins X and Y, every array combined into the thinning mask must have the *current* length:
     it is computed inside the loop (after the previous thinning) or thinned itself.  A mask operand computed once before
@@ -337,6 +356,7 @@ def check(ctx):
     retry_consistency(ctx, prog, fit_fns)
     stored_noise_consistency(ctx, prog, fit_fns)
     retry_mask_freshness(ctx, prog, fit_fns)
+    training_triple_complete(ctx, prog)
 
     ctx.rule("R3", "posterior update after a refit falls back to the previous hyperparameters on LinAlgError", floor=1)
     reach_fit = set()
